@@ -628,6 +628,18 @@ func outcomesPerIteration(fn *ssa.Function, header *ssa.BasicBlock, isOutcome fu
 			if isOutcome(in) {
 				term[b]++
 			}
+			// a call of a local closure: the outcomes in its (branch-free) body happen here
+			if c, ok := in.(*ssa.Call); ok {
+				if mc, ok := c.Call.Value.(*ssa.MakeClosure); ok {
+					if cf, ok := mc.Fn.(*ssa.Function); ok && len(cf.Blocks) == 1 {
+						for _, cin := range cf.Blocks[0].Instrs {
+							if isOutcome(cin) {
+								term[b]++
+							}
+						}
+					}
+				}
+			}
 		}
 	}
 	type mm struct{ min, max int }
@@ -831,7 +843,7 @@ func checkRetLiterals(e *Env, m *e1Model, rule string) {
 					continue
 				}
 				k, isK := flow.ConstInt(st.Val)
-				good := isK && uint64(k) == or.Consts["SECCOMP_RET_ERRNO"]|or.Consts["ENOSYS"]
+				good := isK && uint64(k) == or.Consts["SECCOMP_RET_ERRNO"]|e.ENOSYS()
 				r.Check(good, rule, load.FuncName(fn)+"/return-literal", p.Pos(st.Pos()), "the x32 guard's constant ERRNO|ENOSYS",
 					"a return instruction is built outside the return builder with a value that is not the x32 guard's constant: an errno action would not carry EPERM there (and the return set is no longer closed)")
 			}
